@@ -40,7 +40,7 @@ TOL = 1e-9
 
 def plan(tier, seed):
     n = 14
-    inst = 12 if tier == "quick" else 150
+    inst = 40 if tier == "quick" else 500
     specs = [{"name": "k%02d" % i, "kind": "kernel", "shard": i, "instances": inst, "timeout": 7000} for i in range(n)]
     specs.append({"name": "freq0", "kind": "freq", "shard": 80, "instances": 6 if tier == "quick" else 40, "timeout": 7000})
     specs.append({"name": "freq1", "kind": "freq", "shard": 81, "instances": 6 if tier == "quick" else 40, "timeout": 7000})
